@@ -62,7 +62,9 @@ def plan(tier, prop):
                             "application_block", "stop_signal_failed",
                             "update_context", "other_board_connection",
                             "fallback_initial_host", "bmp_call",
-                            "bmp_board_specific_connection", "scp_failure"],
+                            "bmp_board_specific_connection", "scp_failure",
+                            "context_object_reused",
+                            "context_object_reentered_while_active"],
         "knob_ranges": {"boards": [1, 3, 6, 12], "root_offset": "0-11 each",
                         "eth_down": "0-30 % of boards",
                         "depth": "0-4", "items": "1-12"},
@@ -123,6 +125,7 @@ class CtxEngine(object):
         self.arrivals = []        # (endpoint ip, parsed request)
         self.bmp_arrivals = []
         self.judged = 0
+        self.ctx_pool = {"mc": [], "bmp": []}
 
     # -- board model ---------------------------------------------------------
     def board_eth_of(self, x, y):
@@ -655,7 +658,20 @@ class CtxEngine(object):
             w.violate("CTX", "context arguments before a block are %r, "
                       "expected %r" % (before, before_model),
                       kind="context-arguments")
-        if is_app:
+        pool = self.ctx_pool[which]
+        reuse = None
+        if pool and t.draw(4) == 0:
+            # the caller kept a context object and enters it again (possibly
+            # while it is already active further out)
+            reuse = pool[t.draw(len(pool))]
+            w.probe("context_object_reused")
+            if any(d is reuse[1] for d in stack[which]):
+                w.probe("context_object_reentered_while_active")
+        if reuse is not None:
+            cm, args, is_app = reuse
+            w.ops.append("%swith <kept %s context %r>:" % (
+                "  " * depth, which, args))
+        elif is_app:
             w.probe("application_block")
             explicit = bool(t.draw(3))
             found, ctx_app = self.ctx_value(stack["mc"], "app_id")
@@ -669,7 +685,10 @@ class CtxEngine(object):
             args = self.draw_ctx_args(which)
             w.ops.append("%swith %s(%r):" % ("  " * depth, which, args))
             cm = obj(**args)
-        stack[which].append(dict(args))
+        if reuse is None:
+            args = dict(args)
+            pool.append((cm, args, is_app))
+        stack[which].append(args)       # the same dict when re-used
         signals_before = len(self.m.signals_seen)
         tx_before = len(self.all_tx)
         raised = None
@@ -702,6 +721,10 @@ class CtxEngine(object):
         finally:
             top = stack[which].pop()
         after = obj.get_context_arguments()
+        # "the arguments in force before it": as the model has them now - the
+        # same as before entry unless the block updated a context object that
+        # is (also) still active further out
+        before = self.flat(stack[which])
         if after != before:
             w.violate("CTX", "after leaving a block (%s) the context "
                       "arguments are %r; before entry they were %r"
